@@ -406,6 +406,29 @@ def engine_b(c, rng):
                 srv.cleanup()
                 if os.path.exists(cfgfile):
                     os.remove(cfgfile)
+        # a configuration file with keys the documentation does not know - spelled like the ways other tools include, extend or
+        # source further files, every one of them naming this very file: they are ignored, the documented keys still apply
+        cfgfile = os.path.join(t.root, "rws.config.toml")
+        words = ["include", "includes", "import", "imports", "extends", "extend", "inherit", "inherits", "base", "parent", "source", "load", "use", "config", "config_file", "file", "path", "template", "profile", "defaults", "overrides"]
+        body = "".join('%s = "rws.config.toml"\n' % w for w in words[:11]) + "".join('%s = ["rws.config.toml", "./rws.config.toml"]\n' % w for w in words[11:]) + "thread_count = 3\n\n[cors]\nallow_all = false\nallow_origins = [\"https://self.example\"]\n" + "".join('%s = "rws.config.toml"\n' % w for w in words[:6])
+        open(cfgfile, "w").write(body)
+        prt = server.free_port()
+        srv = server.Server(t.root, threads=3, args=["--ip=127.0.0.1", "--port=%d" % prt], use_default_args=False, port=prt)
+        try:
+            c.ev()
+            c.cls("binary", "self-referential-config", 2)
+            ok = False
+            if srv.started:
+                data, end = srv.request(("GET %s HTTP/1.1\r\nHost: x\r\nOrigin: https://self.example\r\n\r\n" % f).encode())
+                r = httpstrict.parse(data)
+                ok = r.status == 200 and r.get("access-control-allow-origin") == "https://self.example" and len(srv.workers_alive()) == 3
+            if not ok:
+                c.violation("C12:binary:config-file-with-unknown-self-referential-keys", "a config file whose unknown keys (include / import / extends / source ...) name the file itself: the server %s" % ("did not come up (exit status %s)" % srv.proc.poll() if not srv.started else "came up but does not use the documented keys of the file"),
+                            {"config": body[:600], "log_tail": srv.stderr_text()[-300:]})
+        finally:
+            srv.cleanup()
+            if os.path.exists(cfgfile):
+                os.remove(cfgfile)
         if len(seen_settings) == len(SETTINGS):
             c.seen("real-binary start per setting")
         c.extra["settings_observed_on_the_real_binary"] = sorted(seen_settings)
